@@ -460,6 +460,16 @@ _WRAPPER_FLAGS_WITH_ARG = {
 }
 
 
+def _cluster_takes_next(token: str, flags_with_arg) -> bool:
+    """True for a cluster of short options (-vk) whose first value-taking letter is its last."""
+    if not token.startswith("-") or token.startswith("--") or len(token) < 3:
+        return False
+    for i in range(1, len(token)):
+        if "-" + token[i] in flags_with_arg:
+            return i == len(token) - 1
+    return False
+
+
 def _analyze_simple_command(
     words: list[str], config: Config, cwd: Path, *, remote: bool = False
 ) -> Decision:
@@ -506,8 +516,10 @@ def _analyze_simple_command(
                 seen_duration = True
                 j += 1
                 continue
-            if token in _WRAPPER_FLAGS_WITH_ARG.get(base, ()):
-                # timeout -s KILL 5 cmd: the signal name is not the command
+            if token in _WRAPPER_FLAGS_WITH_ARG.get(base, ()) or _cluster_takes_next(
+                token, _WRAPPER_FLAGS_WITH_ARG.get(base, ())
+            ):
+                # timeout -s KILL 5 cmd, timeout -vk 3 5 cmd: the option's value is not the command
                 j += 2
                 continue
             if token.startswith("-") and token != "--":
